@@ -9,7 +9,9 @@ cd /repo || exit 2
 if ! git diff --quiet; then echo "/repo has uncommitted changes; refusing" >&2; exit 2; fi
 if ! git apply --check "$patch" 2>/dev/null; then echo "patch does not apply: $patch" >&2; exit 2; fi
 git apply "$patch"
-trap 'git -C /repo checkout -- . ; git -C /repo clean -fdq' EXIT
+# evidence written while the seed is applied describes a mutated tree: keep the real one
+evbak=$(mktemp -d /tmp/seedtest.ev.XXXXXX); cp -a /verif/evidence/. "$evbak"/
+trap 'git -C /repo checkout -- . ; git -C /repo clean -fdq; rm -rf /verif/evidence; mkdir -p /verif/evidence; cp -a "$evbak"/. /verif/evidence/; rm -rf "$evbak"' EXIT
 export GOFLAGS=-mod=mod GOPROXY=off GOSUMDB=off GOTOOLCHAIN=local
 if ! (cd /repo && go build ./... ) ; then echo "SEED DOES NOT BUILD"; exit 2; fi
 for c in "$@"; do
